@@ -238,6 +238,17 @@ def h_cli(ctx):
     os.makedirs(d, exist_ok=True)
     p = gen.text_file(ai, os.path.join(d, "A.txt"))
     for name in MD.DETERMINISTIC:
+        if name in MD.AGG_AWARE:
+            # the same metric with another aggregator first: the plain run afterwards (same process) must use the mean again
+            ra = H.run_cli([p, "-m", name, "-x", "no", "-type", "csv", "-agg", "max"])
+            expa = MD.metric(name, o, f, "max")
+            if ra.kind != "ok":
+                ctx.fail("cli:%s:-agg:%s:%s" % (name, ra.kind, ra.site or ""), obs=o, fcst=f)
+            elif expa is not None:
+                hdr, rows = CD.parse_csv(ra.stdout)
+                cell = rows[0][-1] if rows else ""
+                if not CD.close_printed(expa, cell):
+                    ctx.fail("cli:%s:value-with--agg-max" % name, obs=o, fcst=f, expected=expa, actual=cell)
         r = H.run_cli([p, "-m", name, "-x", "no", "-type", "csv"])
         exp = MD.metric(name, o, f)
         if r.kind != "ok":
